@@ -105,6 +105,8 @@ def run(check):
     check.assumptions = ["time bound uses the monotonic clock with 2.5 s slack and is confirmed by an isolated re-run", "the scripted plugin blocks on channels only"]
     stats = {"fired_before_return": 0, "signals_seen": 0, "forced_closes": 0, "outputs_after_cancel": 0, "errors_after_cancel": 0, "max_cancel_to_return_ms": 0.0}
     with harness.Runner() as rn:
+        if not rn.hang_oracle_works():
+            check.fail_broken("the hang oracle (Go runtime deadlock report) does not fire in this build")
         items = cancelfam.cancel_cases(check, rn, "c06", check.pick(8, 40), check.pick(7, 35), sched_points=check.pick(3, 25))
         by_id = {c["id"]: (c, s, g) for c, s, g in items}
         out = rn.run_cases([c for c, _s, _g in items], per_case_timeout=120)
